@@ -42,7 +42,11 @@ RULE = ("objects built by histories (constructor list / add_edge / add_edges, 35
         "(ints, huge / negative ints, floats, ints next to floats, strings, numeric strings, 3 tuple families); "
         "undirected: 3-10 nodes, 2-12 hyperedges of sizes 1-5 from 1-3 size classes with forced overlaps and (30 %) "
         "nested hyperedges, n_steps in {0,1,7,50, default}, label in {edge,stub}, detailed in {True,False}, plain / "
-        "size=s / order=s-1 (rarely an absent size: the call raises; 4 % order AND size: ValueError), several calling "
+        "size=s / order=s-1 (8 % an EMPTY layer in either spelling, preferably next to a present size, 60 % of them with "
+        "n_steps=0: everything comes back intact, else the call raises; 4 % order AND size: ValueError); layer sweeps: "
+        "60 (quick) / 900 (thorough) objects with gapped size classes of 1-3 hyperedges, of which EVERY size 0..max+2 "
+        "is requested as size= and as order= with n_steps=0 and n_steps in {1,2,3,7} (empty, singleton, small layers); "
+        "several calling "
         "styles, 12 % with n_clash in {0,2,3} (no effect for these labels); directed: 3-9 nodes, 2-10 "
         "hyperedges, mostly disjoint non-empty sides; 25 % of the inputs are sessions of 2-3 calls on one object with "
         "edits in between (swap of one hyperedge = same count, add, remove, rebuilt object, none; edits of the returned "
@@ -406,10 +410,17 @@ def gen_params(rng, edges):
     elif r < 0.92:
         variant = {"order": rng.choice(present) - 1}
     else:
+        # an EMPTY layer (no hyperedge of the requested size), in both spellings; preferably next to a present size
+        # (order=o with hyperedges of size o but none of size o+1): nothing to reshuffle, with n_steps=0 everything
+        # comes back intact, with n_steps>0 the call raises (np.random.randint(0, 0, 2))
         absent = [s for s in range(1, 8) if s not in present]
-        variant = {"size": rng.choice(absent)}
+        near = [s for s in absent if s - 1 in present or s + 1 in present]
+        s = rng.choice(near if near and rng.random() < 0.75 else absent)
+        variant = {"size": s} if rng.random() < 0.5 else {"order": s - 1}
     params = {"n_steps": rng.choice([0, 1, 7, 7, 50, 50]), "label": rng.choice(["edge", "stub"]),
               "detailed": rng.random() < 0.55, **variant}
+    if r >= 0.92 and rng.random() < 0.6:
+        params["n_steps"] = 0
     if rng.random() < 0.03:
         del params["n_steps"]        # the default (1000 steps)
     if rng.random() < 0.12:
@@ -420,6 +431,35 @@ def gen_params(rng, edges):
         params["order"] = rng.choice([0, 1, 2, max(0, params.get("order", 1))])
         params["size"] = rng.choice([0, 1, params["order"] + 1, params.get("size", 2)])
     return params
+
+
+def gen_layered(rng, n):
+    """size classes with gaps between them and with 1 (singleton layer), 2 or 3 hyperedges each"""
+    import itertools
+    present = sorted(rng.sample([1, 2, 3, 4, 5], rng.randint(1, 3)))
+    present = [k for k in present if k <= n] or [2]
+    edges = []
+    for k in present:
+        allk = list(itertools.combinations(range(n), k))
+        edges += rng.sample(allk, min(len(allk), rng.choice([1, 1, 2, 3])))
+    while len(edges) < 2:
+        e = tuple(sorted(rng.sample(range(n), rng.choice(present + [2, 3]))))
+        if e not in edges:
+            edges.append(e)
+    rng.shuffle(edges)
+    return [list(e) for e in edges]
+
+
+def layer_requests(rng, edges):
+    """every size from 0 to two beyond the largest, as size=s and as order=s-1, with n_steps=0 and a small n_steps"""
+    top = max(len(e) for e in edges) + 2
+    reqs = []
+    for s in range(0, top + 1):
+        for variant in ({"size": s}, {"order": s - 1}):
+            for n_steps in (0, rng.choice([1, 1, 2, 3, 7])):
+                reqs.append({"n_steps": n_steps, "label": rng.choice(["edge", "stub"]),
+                             "detailed": rng.random() < 0.5, **variant})
+    return reqs
 
 
 def gen_directed(rng, n):
@@ -1000,6 +1040,13 @@ def check_undirected(ctx, drv, W, case, op):
             st2, bad2 = guarded(lambda: api_oracle_undirected(h, out, params["detailed"]))
             ctx.count("api_degree_oracles")
             bad = bad2 if st2 == "ok" else [f"degrees of the returned hypergraph cannot be read: {bad2}"]
+        if in_scope and not bad and size is not None and m_sel <= 1 and \
+                {frozenset(e) for e in E_out} != {frozenset(e) for e in E_in}:
+            # a layer of no or one hyperedge: no two reshuffled hyperedges can coincide, so the output has as many
+            # hyperedges as the input and every hyperedge is returned intact (C13_empty_layer, C13_singleton_layer)
+            bad = [f"the layer of size {size} holds {m_sel} hyperedge(s), nothing can be reshuffled or coincide, but "
+                   f"the returned hyperedges differ from the input's: missing "
+                   f"{sorted((sorted(e, key=repr) for e in {frozenset(e) for e in E_in} - {frozenset(e) for e in E_out}), key=repr)[:3]}"]
         for why in bad[:3]:
             ctx.violation(case, "configuration_model: " + why)
         if sorted(E_after, key=repr) != sorted(E_in, key=repr):
@@ -1307,6 +1354,7 @@ def run(ctx):
     n_inputs = ctx.scale(2200, 36000)
     per_input = ctx.scale(3, 6)
     n_trees = ctx.scale(10, 300)
+    n_layered = ctx.scale(60, 900)
     for it in range(n_inputs):
         if out_of_time(ctx):
             break
@@ -1328,6 +1376,25 @@ def run(ctx):
                     "adv", rng.randrange(2 ** 31), {"streak": rng.choice([55, 130, 300]), "lk": lk}]
             ctx.count("heterogeneous_streak_cases")
             run_case(ctx, drv, {"kind": "cm", "labels": labels, "hist": hist + [call]})
+        if it % max(1, n_inputs // n_layered) == 2:
+            # layers: EVERY size from 0 to two beyond the largest is requested of one object, in both spellings, with
+            # n_steps = 0 and a small n_steps: empty layers (also between / next to present sizes), layers of one
+            # hyperedge, layers of two or three; every hyperedge outside the layer must come back intact
+            n = rng.randint(4, 8)
+            n_labels = n + rng.choice([0, 1])
+            lk, labels = gen_labels(rng, n_labels)
+            edges = gen_layered(rng, n)
+            hist, content = gen_history(rng, "cm", n, n_labels, edges, weighted_kind(rng))
+            ctx.count("layered_inputs")
+            for p in layer_requests(rng, content):
+                if out_of_time(ctx):
+                    break
+                s_req = p.get("size", p.get("order", 0) + 1)
+                m_req = sum(1 for e in content if len(e) == s_req)
+                ctx.count("layer_requests_%s_%s" % ("empty" if m_req == 0 else "single" if m_req == 1 else "several",
+                                                    "0steps" if p["n_steps"] == 0 else "steps"))
+                call = ["call", p, rng.choice(["real", "adv"]), rng.randrange(2 ** 31), {"lk": lk}]
+                run_case(ctx, drv, {"kind": "cm", "labels": labels, "hist": hist + [call]})
         kind = "cm" if it % 4 != 3 else "dcm"
         n = rng.randint(3, 10 if kind == "cm" else 9)
         n_labels = n + rng.choice([0, 1, 2])
